@@ -520,6 +520,12 @@ SPECIAL_PAIRS = [
     ("equal-value-objects", R("VStr2", {"a": _Ver(1, 2), "b": "x"}), R("VStr2", {"a": _Ver(1, 2), "b": "x"})),
     ("equal-value-objects-below-a-parent", R("VMany", items=(R("VStr2", {"a": _Ver(3), "b": ""}),)), R("VMany", items=(R("VStr2", {"a": _Ver(3), "b": ""}),))),
     ("different-value-objects", R("VStr2", {"a": _Ver(1, 2), "b": "x"}), R("VStr2", {"a": _Ver(1, 3), "b": "x"})),
+    # set-valued properties: different sets whose members print alike
+    ("frozenset-item-with-separator-vs-split-items", R("VRich", {"fs": frozenset({"x, y"})}), R("VRich", {"fs": frozenset({"x", "y"})})),
+    ("frozenset-int-items-vs-str-items", R("VRich", {"fs": frozenset({1, 2})}), R("VRich", {"fs": frozenset({"1", "2"})})),
+    ("frozenset-one-vs-two-items", R("VRich", {"fs": frozenset({"a"})}), R("VRich", {"fs": frozenset({"a", "b"})})),
+    ("frozenset-empty-vs-empty-string-item", R("VRich", {"fs": frozenset()}), R("VRich", {"fs": frozenset({""})})),
+    ("frozenset-bool-vs-int-item", R("VRich", {"fs": frozenset({True})}), R("VRich", {"fs": frozenset({1})})),
     ("long-common-prefix", R("VStr2", {"a": "p" * 64 + "A" * 16, "b": ""}), R("VStr2", {"a": "p" * 64 + "B" * 16, "b": ""})),
     ("tuple-order", R("VRich", {"t": (1, 2)}), R("VRich", {"t": (2, 1)})),
     ("int-vs-bool-in-optional", R("VRich", {"n": 1}), R("VRich", {"n": True})),
